@@ -12,6 +12,7 @@ import (
 
 const (
 	currentDir = "."
+	parentDir  = ".."
 )
 
 // Filespace is memory filespace
